@@ -148,7 +148,11 @@ int cif_packet_create_norm(cif_packet_tp **packet, UChar **names, int avoid_alia
                     scalar->key = *name;
                 } else {
                     scalar->key = cif_u_strdup(*name);
-                    if (scalar->key == NULL) FAIL(soft, CIF_MEMORY_ERROR);
+                    if (scalar->key == NULL) {
+                        /* the entry is not yet part of the packet, so it must be released here */
+                        free(scalar);
+                        FAIL(soft, CIF_MEMORY_ERROR);
+                    }
                 }
                 scalar->key_orig = scalar->key;
                 HASH_ADD_KEYPTR(hh, temp_packet->map.head, scalar->key, U_BYTES(scalar->key), scalar);
